@@ -18,11 +18,23 @@ def _eager(labels, workers, budget, validate=0, timeout=None):
     return r
 
 
-def _joint(labels, depth, workers, budget, prefix=0, timeout=None, memb=1):
+# Directed seed (label indices y=0,a=1,b=2,c=3,x=4): x and y each carry 4 stored simplices, contraction(x,y) removes x
+# from t0 but not from the lazy map's cleaning heap, then the map is filled to 8 stored simplices with size_lbound still 0;
+# the exploration continues from there (the 9th stored simplex runs the size-triggered clean on the heap's top vertex).
+SEED_STALE_HEAP_TOP = "i16,i18,i20,i24,i1,i3,i5,i9,c4_0,i2,i4,i8,i6"
+
+
+def _joint(labels, depth, workers, budget, prefix=0, timeout=None, memb=1, seed="", betta=0):
+    # betta > 0: scaled-down instance, Lazy_toplex_map::BETTA (8, tuning constant of the size-triggered clean) is
+    # overwritten in the fresh object so that a plain breadth-first search reaches that code path
     # memb=0: membership queries are not operations of the history (they are still all asked at the final state)
     r = {"unit": "c16_toplex", "cores": workers,
          "args": ["--mode", "joint", "--labels", labels, "--depth", str(depth), "--workers", str(workers),
                   "--budget", str(budget), "--prefix-ins", str(prefix), "--memb", str(memb)]}
+    if seed:
+        r["args"] += ["--seed-ops", seed]
+    if betta:
+        r["args"] += ["--betta", str(betta)]
     if timeout:
         r["timeout"] = timeout
     return r
@@ -44,15 +56,15 @@ def C16():
                    "complex for every non-empty vertex set; Lazy_toplex_map: the same histories (membership queries are "
                    "operations because they mutate) to depth 4 on 4 labels (thorough: 5 with the queries only at the final state; 6 on 3 "
                    "labels; 12 on 2 labels) and to "
-                   "depth 2-3 from seeded states with 8..15 stored simplices, compared with its own reference complex and "
+                   "depth 2-3 from seeded states with 8..15 stored simplices (one of them a directed 13-operation seed), compared with its own reference complex and "
                    "directly with the eager map. A history is not extended past its first disagreement (the disagreement is "
                    "the verdict for that history and all its extensions). This is the level the for-all-histories quantifier "
                    "needs for the eager map; for the lazy map it is a bounded statement"),
     "level_note": ("trusted: ref::Complex (closure semantics, ~40 lines used), the canonical key (model + t0 lists; lazy: + "
                    "gamma0_lbounds, size_lbound, size, empty_toplex, heap contents, live handle values) validated by merge "
                    "validation in the thorough tier, g++/ASan/UBSan. Not covered: universes above 5 labels, lazy histories "
-                   "beyond the stated depths (the size-triggered clean with a stale heap entry needs > 8 stored simplices "
-                   "avoiding one vertex, i.e. 5+ labels and 12+ operations), all_facets_inside, unitary_collapse, "
+                   "beyond the stated depths (the size-triggered clean is only reached through the seeded runs: it needs > 8 "
+                   "stored simplices - or through the scaled-down instance BETTA=2), all_facets_inside, unitary_collapse, "
                    "insert_independent_simplex called directly, duplicate vertices in an input range"),
     "rule": ("explicit-state BFS over operation histories of the real toplex maps (one fresh object per history), deduplicated "
              "on (reference-model state, t0 lists [, lazy bounds / heap / counters]); after every transition every read "
@@ -61,11 +73,14 @@ def C16():
     "bounds": {
         "quick": ("eager: closure (all finite histories) on labels {0,1,2,3}, {2,5,11,2e9} and {0,5,2^32+5}; joint eager+lazy: "
                   "depth 4 on {0,1,2,3}, depth 5 on {0,1,2}, depth 8 on {0,1}, depth 3 on {0,5,2^32+5}, depth 2 after seeding "
-                  "with the first 8 / 10 / 15 simplices of the 4-vertex universe"),
+                  "with the first 8 / 10 / 15 simplices of the 4-vertex universe, depth 1 after one directed 13-operation seed on "
+                  "5 labels (stale entry on top of the lazy cleaning heap, 8 stored simplices); scaled-down lazy instance "
+                  "(BETTA 8 -> 2): depth 4 on {0,1,2}, depth 3 on {0,1,2,3}"),
         "thorough": ("eager: closure on 5 labels {0..4} and on the three quick label sets, all with merge validation; joint: "
                      "depth 5 on {0,1,2,3} without membership-query operations inside the history and depth 4 with them, depth 6 on "
                      "{0,1,2}, depth 12 on {0,1}, depth 4 on {0,5,2^32+5}, depth 3 after "
-                     "seeding with 8 / 10 / 14 / 15 simplices"),
+                     "seeding with 8 / 10 / 14 / 15 simplices, depth 2 after the directed seed; scaled-down lazy instance "
+                     "(BETTA 8 -> 2): depth 6 on {0,1,2}, depth 4 on {0,1,2,3}"),
     },
     "assumptions": [
         "documented preconditions only: remove_vertex(v) is generated only when v is a vertex of the complex ('Remove the "
@@ -78,6 +93,9 @@ def C16():
         "Lazy_toplex_map::num_maximal_simplices is not compared (the class documents that it is not always up to date; its "
         "own unit test expects non-maximal entries to be counted); lazy has no remove_vertex / maximality / maximal_cofaces",
         "small scope: at most 5 labels (eager), 4 labels (lazy)",
+        "scaled-down runs (--betta 2) overwrite the const tuning member Lazy_toplex_map::BETTA of the fresh object through "
+        "-fno-access-control; the property must hold for every value of that constant, and every class they report is also "
+        "reported by a run with the shipped constant (directed seed)",
     ],
     "runs": {
         "quick": [
@@ -91,6 +109,9 @@ def C16():
             _joint("0,1,2,3", 2, 1, 200, prefix=8),
             _joint("0,1,2,3", 2, 1, 200, prefix=10),
             _joint("0,1,2,3", 2, 1, 200, prefix=15),
+            _joint("0,1,2,3,4", 1, 1, 200, seed=SEED_STALE_HEAP_TOP),
+            _joint("0,1,2", 4, 1, 200, betta=2),
+            _joint("0,1,2,3", 3, 2, 200, betta=2),
         ],
         "thorough": [
             _joint("0,1,2,3", 5, 8, 2000, timeout=2400, memb=0),
@@ -106,6 +127,9 @@ def C16():
             _joint("0,1,2,3", 3, 1, 1500, prefix=10, timeout=2400),
             _joint("0,1,2,3", 3, 1, 1500, prefix=14, timeout=2400),
             _joint("0,1,2,3", 3, 1, 1500, prefix=15, timeout=2400),
+            _joint("0,1,2,3,4", 2, 2, 1500, seed=SEED_STALE_HEAP_TOP, timeout=2400),
+            _joint("0,1,2", 6, 2, 1500, betta=2, timeout=2400),
+            _joint("0,1,2,3", 4, 4, 1500, betta=2, timeout=2400),
         ],
     },
 }
